@@ -9,6 +9,7 @@ import (
 	"runtime"
 	"strings"
 	"time"
+	"unsafe"
 
 	gojson "github.com/goccy/go-json"
 
@@ -50,6 +51,20 @@ type c06Big struct {
 	S  []zoo.RecSlice
 	T  map[zoo.UTS]*zoo.UP
 	U8 uint8
+}
+
+// c06Odd: members of kinds JSON has no value for.
+type c06Odd struct {
+	A int             `json:"a"`
+	F func()          `json:"b"`
+	C chan int        `json:"c"`
+	X complex128      `json:"d"`
+	U unsafe.Pointer  `json:"e"`
+	S zoo.Shaper      `json:"f"`
+	E error           `json:"g"`
+	P *func(int) bool `json:"h"`
+	M map[string]func()
+	Z string `json:"i"`
 }
 
 // c06CtxU implements only the context-aware unmarshaler interface.
@@ -196,6 +211,94 @@ func c06Entries() []c06Entry {
 				p.Unmarshal(b, &s)
 				var st struct{ A int }
 				p.Unmarshal(b, &st)
+			}
+		}},
+		// destinations of kinds JSON has no value for, and interfaces with methods
+		{"Unmarshal:odd-kinds", func(b []byte) {
+			gojson.Unmarshal(b, &c06Odd{})
+			gojson.Unmarshal(b, &[]func(){})
+			gojson.Unmarshal(b, &map[string]chan int{})
+			var f func()
+			gojson.Unmarshal(b, &f)
+			var e error
+			gojson.Unmarshal(b, &e)
+			var sh zoo.Shaper = zoo.SmallShape{}
+			gojson.Unmarshal(b, &sh)
+			var x complex128
+			gojson.Unmarshal(b, &x)
+		}},
+		{"Decoder:odd-kinds/3", func(b []byte) {
+			gojson.NewDecoder(&cutReader{append([]byte{}, b...), 3}).Decode(&c06Odd{})
+			var f func()
+			gojson.NewDecoder(bytes.NewReader(b)).Decode(&f)
+			var sh zoo.Shaper = &zoo.SmallShape{}
+			gojson.NewDecoder(bytes.NewReader(b)).Decode(&sh)
+		}},
+		// Path.Get assigns what it selected to destinations of every kind (a conversion table of its own)
+		{"Path.Get:dst-kinds", func(b []byte) {
+			var src any
+			if gojson.Unmarshal(b, &src) != nil {
+				return
+			}
+			srcs := []any{src, map[string]any{"a": src, "c": []any{src, 1.5, "12", true, nil}}, c06Big{A: 3, B: "4", C: []int{5}, U8: 6}, []any{src}, map[string]int{"a": 7},
+				zoo.EmbShadow{}, &zoo.EmbPtr{}, zoo.Tags{Plain: 1}, map[string]zoo.Tags{"a": {}}, []zoo.EmbPtr{{}}, map[int]any{1: src}, [2]any{src, nil}, time.Now(), nil,
+				struct {
+					A  uint8
+					B  float32
+					C  []string
+					D  map[string]any
+					E  *int
+					F  bool
+					G  [2]int8
+					H  gojson.Number
+					a2 int
+				}{A: 8, B: 1.5, C: []string{"9", "x"}, D: map[string]any{"x": src}, F: true, G: [2]int8{1, -1}, H: "10"}}
+			for _, p := range compiled[:8] {
+				for _, sv := range srcs {
+					var d1 int8
+					var d2 uint16
+					var d3 string
+					var d4 bool
+					var d5 float32
+					var d6 [2]int
+					var d7 []string
+					var d8 map[string]int
+					var d9 struct{ A int }
+					var d10 *int
+					var d11 []any
+					var d12 gojson.Number
+					var d13 uint64
+					var d14 map[string]any
+					var d15 []c06Big
+					var d16 float64
+					type namedInt int
+					type namedStrs []string
+					type namedMap map[string]any
+					var d17 namedInt
+					var d18 namedStrs
+					var d19 namedMap
+					var d20 zoo.EmbPtr
+					var d21 zoo.Tags
+					var d22 *zoo.RecB
+					var d23 error
+					var d24 func()
+					var d25 chan int
+					var d26 zoo.Shaper
+					var d27 [0]int
+					var d28 map[int]string
+					var d29 **string
+					var d30 zoo.EmbShadow
+					var d31 struct {
+						a int
+						B namedInt
+						C *namedStrs
+					}
+					var d32 time.Time
+					for _, dst := range []any{&d1, &d2, &d3, &d4, &d5, &d6, &d7, &d8, &d9, &d10, &d11, &d12, &d13, &d14, &d15, &d16,
+						&d17, &d18, &d19, &d20, &d21, &d22, &d23, &d24, &d25, &d26, &d27, &d28, &d29, &d30, &d31, &d32, d9, nil, 5} {
+						p.Get(sv, dst)
+					}
+				}
 			}
 		}},
 		{"Path.Get", func(b []byte) {
